@@ -448,3 +448,31 @@ MUTANTS += [
         (M, "    fn console() -> Result<NamedSource> {\n        let named_source = NamedSource {\n            name: Stream::Console,\n            source: Box::new(BufReader::new(std::io::stdin())),\n        };\n        Ok(named_source)\n    }",
             "    fn wrap<R>(name: Stream, reader: R) -> NamedSource where R: BufRead + 'static {\n        let mut source = Box::new(reader);\n        if source.fill_buf().map(|b| b.first() == Some(&0u8) && b.len() == 1).unwrap_or(false) { source.consume(1); }\n        NamedSource { name, source }\n    }\n    fn console() -> Result<NamedSource> {\n        Ok(NamedSource::wrap(Stream::Console, BufReader::new(std::io::stdin())))\n    }")]),
 ]
+# ---- round 8: both-ways tests for R15.sink, R6.handoff, R11.cli, R14 "never passed over", the lexer alphabet
+MUTANTS += [
+    dict(id="M15h", props=["C15"], what="`fml run` prints a banner line on stdout before the program's output", edits=[
+        (M, "        let program = bytecode::compile(&ast)\n            .expect(\"Compiler error\");\n\n        evaluate_with_memory_config(&program, self.heap_size, self.heap_log.clone())\n            .expect(\"Interpreter error\")\n    }\n\n    pub fn selected_input(&self) -> Result<NamedSource> {\n        NamedSource::from(self.input.as_ref())\n    }\n}\n\nimpl BytecodeInterpreterAction {",
+            "        let program = bytecode::compile(&ast)\n            .expect(\"Compiler error\");\n\n        println!(\"-- fml --\");\n        evaluate_with_memory_config(&program, self.heap_size, self.heap_log.clone())\n            .expect(\"Interpreter error\")\n    }\n\n    pub fn selected_input(&self) -> Result<NamedSource> {\n        NamedSource::from(self.input.as_ref())\n    }\n}\n\nimpl BytecodeInterpreterAction {")]),
+    dict(id="M15i", props=["C15"], what="the stdout sink writes the text with CR LF line ends", edits=[
+        (ST, "        match std::io::stdout().write_all(s.as_bytes()) {", "        match std::io::stdout().write_all(s.replace('\\n', \"\\r\\n\").as_bytes()) {")]),
+    dict(id="M6h", props=["C06"], what="`fml compile` drops repeated adjacent top-level statements before compiling", edits=[
+        (M, "        let program = bytecode::compile(&ast)\n            .expect(\"Compiler Error\");",
+            "        let ast = match ast { AST::Top(mut es) => { es.dedup(); AST::Top(es) }, other => other };\n        let program = bytecode::compile(&ast)\n            .expect(\"Compiler Error\");")]),
+    dict(id="M11h", props=["C11"], what="two options of `fml run` share the long name --heap-log (clap checks this in debug builds only)", edits=[
+        (M, "    #[clap(long=\"heap-size\", name=\"MBs\", about = \"Maximum heap size in megabytes\", default_value = \"0\")]\n    pub heap_size: usize,\n    #[clap(long=\"heap-log\", name=\"LOG_FILE\"",
+            "    #[clap(long=\"heap-log\", name=\"MBs\", about = \"Maximum heap size in megabytes\", default_value = \"0\")]\n    pub heap_size: usize,\n    #[clap(long=\"heap-log\", name=\"LOG_FILE\"")]),
+    dict(id="M14h", props=["C14"], what="a member that is not a method is passed over and the parent is asked", edits=[
+        (I, "    let method_option = object_instance.methods\n            .get(&method_name.to_string())\n            .map(|method| method.clone());",
+            "    let method_option = object_instance.methods\n            .get(&method_name.to_string())\n            .filter(|method| matches!(method, ProgramObject::Method { .. }))\n            .map(|method| method.clone());")]),
+    dict(id="M7l", props=["C07"], what="white space skip rule is ASCII only ((?-u:\\s) spelled as a class)", edits=[
+        (G, "    r\"\\s*\" => { },", "    r\"[ \\t\\n\\r]*\" => { },")]),
+]
+BENIGN += [
+    dict(id="B34", props=["C15", "C06", "C10"], what="the disassembler prints its listing through a private helper using print!", edits=[
+        (M, "        println!(\"{}\", program);\n    }", "        Self::show(&program);\n    }\n\n    fn show(program: &Program) {\n        print!(\"{}\\n\", program);\n    }")]),
+    dict(id="B35", props=["C06", "C01"], what="`fml run` obtains the AST through a private helper", edits=[
+        (M, "        let source = self.selected_input()\n            .expect(\"Cannot open FML program.\");\n\n        let ast: AST = TopLevelParser::new()\n            .parse(&source.into_string()\n            .expect(\"Error reading input\"))\n            .expect(\"Parse error\");\n\n        let program = bytecode::compile(&ast)\n            .expect(\"Compiler error\");",
+            "        let ast = self.parsed_input();\n\n        let program = bytecode::compile(&ast)\n            .expect(\"Compiler error\");"),
+        (M, "impl BytecodeInterpreterAction {\n    pub fn interpret(&self) {",
+            "impl RunAction {\n    fn parsed_input(&self) -> AST {\n        let source = self.selected_input()\n            .expect(\"Cannot open FML program.\");\n        TopLevelParser::new()\n            .parse(&source.into_string()\n            .expect(\"Error reading input\"))\n            .expect(\"Parse error\")\n    }\n}\n\nimpl BytecodeInterpreterAction {\n    pub fn interpret(&self) {")]),
+]
